@@ -112,7 +112,13 @@ def gen_hier(rnd: random.Random, nvars: int, force: str | None = None) -> dict:
             fn = rnd.choice(["exp", "sqrt", "affine", "add", "sqp"])
             if fn == "sqrt" and not poss:
                 fn = "exp"
-            if fn == "exp":
+            if rnd.random() < (0.5 if force == "reject" else 0.06):
+                fn = "guard"
+            if fn == "guard":
+                a = rnd.choice(reals + poss)
+                v["calc"] = {"fn": "guard", "args": [a], "consts": [7.0]}
+                v["positive"] = a in poss
+            elif fn == "exp":
                 v["calc"] = {"fn": "exp", "args": [rnd.choice(reals + poss)], "consts": []}
                 v["positive"] = True
             elif fn == "sqrt":
@@ -180,7 +186,7 @@ def gen_hier(rnd: random.Random, nvars: int, force: str | None = None) -> dict:
                      "at_is_var": rnd.random() < 0.3})
     user = {}
     for which in ("lik", "prior", "prob"):
-        p = 0.5 if force == "user" else 0.08
+        p = 0.5 if force in ("user", "rebuild") else 0.08
         if rnd.random() < p:
             kind = rnd.choice(["calc", "calc_vec", "value", "value_vec", "tcalc"])
             pool = reals + poss
@@ -189,9 +195,27 @@ def gen_hier(rnd: random.Random, nvars: int, force: str | None = None) -> dict:
             args = [rnd.choice(pool) for _ in range(rnd.choice([1, 2]))] if pool else []
             user[which] = {"kind": kind, "args": args,
                            "value": real_val(rnd) if kind == "value" else [real_val(rnd) for _ in range(3)]}
-    if force == "user" and not user:
+    if force in ("user", "rebuild") and not user:
         user["prob"] = {"kind": "value", "args": [], "value": real_val(rnd)}
+    # assignments that make the auto-update RAISE in a downstream node: (a) the designated value of a guard
+    # Calc, (b) a negative value for a variable that is the scale of a Normal with validate_args=True
+    byname = {v["name"]: v for v in vs}
+    strong = lambda nm: (byname[nm]["calc"] is None and not byname[nm]["transform"] and byname[nm]["shape"] == 0)
+    reject = []
+    for v in vs:
+        if v["calc"] and v["calc"]["fn"] == "guard" and strong(v["calc"]["args"][0]):
+            reject.append({"key": v["calc"]["args"][0], "bad": v["calc"]["consts"][0]})
+    for holder in vs + free:
+        d = holder["dist"]
+        if d and d["fam"] == "normal" and d.get("impl", "jax") == "jax" and "ref" in d["params"]["scale"] \
+                and strong(d["params"]["scale"]["ref"]) and rnd.random() < (0.8 if force == "reject" else 0.15):
+            d["validate"] = True
+            reject.append({"key": d["params"]["scale"]["ref"], "bad": -1.0})
+    builds = ["nocopy"]
+    if force == "rebuild" or rnd.random() < 0.08:
+        builds = rnd.choice([["copy", "copy"], ["copy", "copy", "copy"], ["copy", "nocopy"], ["copy", "copy", "nocopy"]])
     return {"kind": "hier", "f32": rnd.random() < 0.25, "vars": vs, "free": free, "user": user,
+            "reject": reject, "builds": builds,
             "nodist_node": force == "nodist" or rnd.random() < 0.05, "force": force,
             # "roots": only variables that no other variable reads are added to the GraphBuilder, the others are
             # reached as recursive inputs
@@ -274,7 +298,19 @@ def gen_positions(rnd: random.Random, prog: dict, nsteps: int, force: str | None
                     pos[f"s{j}_tau2"] = pos_val(rnd)
             if not pos:
                 pos["s0_beta"] = [dy(rnd, -1, 1) for _ in prog["smooths"][0]["beta"]]
-        if force == "inplace":
+        extra = {}
+        if prog.get("reject") and (force == "reject" or rnd.random() < 0.12):
+            # a rejected assignment followed by continued use: assign the bad value (the auto-update raises),
+            # assign the other variables of this position, then an admissible value for the rejected variable
+            t = rnd.choice(prog["reject"])
+            byname = {v["name"]: v for v in prog["vars"]}
+            window = {k: v for k, v in pos.items() if k != t["key"]}
+            # the admissible value of the rejected variable is assigned FIRST (the others would raise again)
+            pos = {t["key"]: pos_val(rnd) if byname[t["key"]].get("positive") else real_val(rnd)}
+            pos.update(window)
+            extra = {"bad": {t["key"]: t["bad"]}, "window": window}
+            mode = "reject"
+        elif force == "inplace":
             mode = rnd.choice(["inplace", "inplace", "fresh"])
         else:
             mode = rnd.choice(["direct", "direct", "manual", "iface", "inplace", "fresh"])
@@ -283,7 +319,7 @@ def gen_positions(rnd: random.Random, prog: dict, nsteps: int, force: str | None
             rnd.shuffle(ks)
             pos = {k: cur[k] for k in ks[:rnd.randint(1, min(3, len(ks)))]}
         cur.update({k: v for k, v in pos.items() if not k.endswith("_transformed")})
-        steps.append({"mode": mode, "pos": pos})
+        steps.append(dict({"mode": mode, "pos": pos}, **extra))
     return steps
 
 
@@ -304,7 +340,43 @@ class Built:
 
 
 def build(prog: dict, flip_per_obs: bool = False) -> Built:
-    """builds the REAL lsl.Model; returns handles (all through public API)"""
+    """the model of the LAST build of the program's build history"""
+    return build_all(prog, flip_per_obs)[-1]
+
+
+def _finish(T: Built, gb, autos) -> list:
+    """runs the build history  prog["builds"]  (default: one build_model()) on the SAME graph builder:
+    "copy" = gb.build_model(copy=True) (the builder stays usable), "nocopy" = gb.build_model() (last).
+    Handles of every built model are looked up BY NAME in that model."""
+    import liesel.model as lsl
+    out = []
+    for bi, how in enumerate(T.prog.get("builds") or ["nocopy"]):
+        model = gb.build_model(copy=(how == "copy"))
+        B = Built()
+        B.prog, B.dtype, B.dist_info = T.prog, T.dtype, dict(T.dist_info)
+        B.model, B.how, B.build_index = model, how, bi
+        B.assign = {}
+        for k, o in T.assign.items():
+            B.assign[k] = model.vars[o.name] if isinstance(o, lsl.Var) else model.nodes[o.name]
+        B.user_nodes, B.missing_user = {}, []
+        for w, n in T.user_nodes.items():
+            if n.name in model.nodes:
+                B.user_nodes[w] = model.nodes[n.name]
+            else:
+                B.missing_user.append(w)
+        for v in autos:
+            tname = v["name"] + "_transformed"
+            if tname in model.vars:
+                tv = model.vars[tname]
+                B.assign[tname] = tv
+                if tv.dist_node is not None:
+                    B.dist_info[tv.dist_node.name] = {"fam": v["dist"]["fam"], "transform": "auto", "owner": v["name"], "impl": "jax"}
+        out.append(B)
+    return out
+
+
+def build_all(prog: dict, flip_per_obs: bool = False) -> list:
+    """builds the REAL lsl.Model(s); returns handles (all through public API)"""
     setup_jax()
     import numpy as np
     import jax.numpy as jnp
@@ -347,8 +419,7 @@ def build(prog: dict, flip_per_obs: bool = False) -> Built:
                 B.assign[f"{nm}_tau2"] = grp["tau2"]
         for d, p in zip(dists, prog["per_obs"]):
             d.per_obs = (not p) if flip_per_obs else p
-        B.model = gb.build_model()
-        return B
+        return _finish(B, gb, [])
 
     objs: dict[str, object] = {}
 
@@ -360,7 +431,11 @@ def build(prog: dict, flip_per_obs: bool = False) -> Built:
         fam = d["fam"]
         kw = {k: arg(p) for k, p in d["params"].items()}
         if fam == "normal":
-            node = cls(normal_impl(d.get("impl", "jax")), **kw, _name=name)
+            if d.get("validate"):
+                # tfd.Normal(..., validate_args=True): a non-positive scale makes the node's update raise
+                node = cls(lambda loc, scale: tfd.Normal(loc, scale, validate_args=True), **kw, _name=name)
+            else:
+                node = cls(normal_impl(d.get("impl", "jax")), **kw, _name=name)
         elif fam == "gamma":
             node = cls(tfd.Gamma, **kw, _name=name)
         elif fam == "invgamma":
@@ -380,6 +455,7 @@ def build(prog: dict, flip_per_obs: bool = False) -> Built:
         "affine": lambda c: (lambda a: c[0] + c[1] * jnp.asarray(a)),
         "add": lambda c: (lambda a, b: jnp.asarray(a) + jnp.asarray(b)),
         "sqp": lambda c: (lambda a: jnp.asarray(a) * jnp.asarray(a) + c[0]),
+        "guard": lambda c: (lambda a: _guard(a, c[0])),
     }
     added = []
     autos = []
@@ -459,15 +535,16 @@ def build(prog: dict, flip_per_obs: bool = False) -> Built:
             node = lsl.Value(f(u["value"]), _name=f"user_{which}")
         B.user_nodes[which] = node
         setattr(gb, f"log_{which}_node", node)
-    B.model = gb.build_model()
-    for v in autos:
-        tname = v["name"] + "_transformed"
-        if tname in B.model.vars:
-            tv = B.model.vars[tname]
-            B.assign[tname] = tv
-            if tv.dist_node is not None:
-                B.dist_info[tv.dist_node.name] = {"fam": v["dist"]["fam"], "transform": "auto", "owner": v["name"], "impl": "jax"}
-    return B
+    return _finish(B, gb, autos)
+
+
+def _guard(a, bad):
+    """identity, except that the designated value makes the Calc raise"""
+    import numpy as np
+    if np.ndim(a) == 0 and float(a) == bad:
+        raise ValueError(f"designated value {bad} rejected by the harness Calc")
+    import jax.numpy as jnp
+    return jnp.asarray(a) * 1.0
 
 
 def normal_impl(impl):
@@ -528,6 +605,63 @@ def apply_position(B: Built, pos: dict, manual: bool, inplace: bool = False):
     if manual:
         B.model.update()
         B.model.auto_update = True
+
+
+def reject_window(B: Built, st: dict) -> dict:
+    """a rejected assignment followed by continued use.  Assign the bad value (expected: the auto-update raises
+    somewhere downstream), catch; assign the other variables of the step, catching; call model.update(), catching.
+    Then record, for every node that is an instance of Dist: the reported outdated flag, node.value and the
+    log-density recomputed now from the node's current inputs; whether any node of the model is outdated; the
+    three totals.  Nothing is assumed about what the model does with the rejected value."""
+    import numpy as np
+    import liesel.model as lsl
+    from liesel.model.nodes import NoDist
+    f = lambda x: np.asarray(x, dtype=B.dtype)
+    raised = []
+    for k, val in list(st["bad"].items()) + list(st["window"].items()):
+        try:
+            B.assign[k].value = f(val)
+            raised.append(False)
+        except Exception as ex:   # noqa
+            raised.append(type(ex).__name__)
+    try:
+        B.model.update()
+        raised.append(False)
+    except Exception as ex:   # noqa
+        raised.append(type(ex).__name__)
+    m = B.model
+
+    def num(fn):
+        try:
+            a = np.asarray(fn(), dtype=np.float64).reshape(-1)
+            return [float(x) for x in a]
+        except Exception as ex:   # noqa
+            return "raises " + type(ex).__name__
+    nodes = []
+    for name in sorted(m.nodes):
+        n = m.nodes[name]
+        if not isinstance(n, lsl.Dist) or isinstance(n, NoDist):
+            continue
+        try:
+            outdated = bool(n.outdated)
+        except Exception:   # noqa
+            outdated = True
+        rec = {"name": name, "outdated": outdated, "per_obs": bool(n.per_obs)}
+        if not outdated:
+            rec["stored"] = num(lambda: n.value)
+            rec["fresh"] = num(lambda: n.init_dist().log_prob(n.at.value))
+        nodes.append(rec)
+    any_outdated = False
+    for n in m.nodes.values():
+        try:
+            any_outdated = any_outdated or bool(n.outdated)
+        except Exception:   # noqa
+            any_outdated = True
+    totals = None
+    if not any_outdated:
+        totals = {"prob": num(lambda: m.log_prob), "lik": num(lambda: m.log_lik), "prior": num(lambda: m.log_prior)}
+    current = {k: num(lambda o=o: o.value) for k, o in B.assign.items()}
+    return {"raised": raised, "nodes": nodes, "any_outdated": any_outdated, "totals": totals, "current": current}
 
 
 def iface_position(B: Built, pos: dict) -> dict:
@@ -602,6 +736,7 @@ def observe(B: Built, iface=None, prev_state=None, pos=None, want_inputs=False, 
             rec["at"] = enc(n.at.value)
         nodes.append(rec)
     user = {w: enc(nd.value) for w, nd in B.user_nodes.items()}
+    missing_user = list(getattr(B, "missing_user", []))
     reads = []
     reads.append(dict(read_totals(lambda nm: {"_model_log_prob": m.log_prob, "_model_log_lik": m.log_lik,
                                               "_model_log_prior": m.log_prior}[nm]), how="Model.log_prob/log_lik/log_prior"))
@@ -626,7 +761,8 @@ def observe(B: Built, iface=None, prev_state=None, pos=None, want_inputs=False, 
     for vn, var in m.vars.items():
         if not var.has_dist:
             novar_lp[vn] = enc(var.log_prob)
-    return {"nodes": nodes, "user": user, "reads": reads, "state": st, "nodist_var_log_prob": novar_lp}
+    return {"nodes": nodes, "user": user, "reads": reads, "state": st, "nodist_var_log_prob": novar_lp,
+            "missing_user": missing_user}
 
 
 # ---------------------------------------------------------------------------------------------
@@ -695,7 +831,7 @@ def evaluate(prog: dict, positions: list[dict]) -> dict:
                 k = c["consts"]
                 val[nm] = {"exp": lambda: np.exp(a[0]), "sqrt": lambda: np.sqrt(a[0]),
                            "affine": lambda: k[0] + k[1] * a[0], "add": lambda: a[0] + a[1],
-                           "sqp": lambda: a[0] * a[0] + k[0]}[c["fn"]]()
+                           "sqp": lambda: a[0] * a[0] + k[0], "guard": lambda: a[0] * 1.0}[c["fn"]]()
             elif v["transform"]:
                 tkey = nm + "_transformed"
                 if tkey in cur:
